@@ -316,6 +316,10 @@ func zzC08Replace(t *zzTree, e *Engine, root *PID) {
 	if rep == nil {
 		return
 	}
+	if t.gen[old.ID] == 2 {
+		// the replacement was started and nobody has stopped it: it answers to its id
+		zzrt.Assert(e.Registry.get(rep) != nil, "C10:started-actor-is-not-registered")
+	}
 	live := e.Registry.get(rep) != nil && t.gen[old.ID] == 2
 	if live {
 		zzrt.Reach("replacement-spawned")
